@@ -135,6 +135,7 @@ _VALIDA_CLASSES = (
     valida.datapath.ContainerValue,
     valida.rules.Rule,
     valida.schema.Schema,
+    valida.data.Data,
 )
 
 
@@ -210,3 +211,21 @@ def same_objs(label, got, exp):
     if REPLAY and not ok:
         print(f"  MISMATCH (identity) {label}: implementation={got!r} expected={exp!r}")
     return ok
+
+
+def docids(x):
+    """Identity structure of a document: ids of every nested container (aliasing / rebinding shows up)."""
+    if type(x) is dict:
+        return ("dict", id(x), tuple((tx(k), docids(v)) for k, v in x.items()))
+    if type(x) is list:
+        return ("list", id(x), tuple(docids(v) for v in x))
+    return None
+
+
+def summarize_validation(v):
+    return (v.is_valid, v.num_failures, v.num_rules_tested,
+            [[tx(tuple(f.path)) for f in rt.failures] for rt in v.rule_tests], tx(v.cast_data))
+
+
+def summarize_test(t):
+    return (t.is_valid, t.tested, t.num_failures, [tx(tuple(f.path)) for f in t.failures], tx(t.data.get_original()))
